@@ -37,6 +37,10 @@ def random_case(prop, rng, tier):
         # fractional estimates whose exact sums tie: compared with the exact characterisation on the Fractions of the floats
         for t in case['tasks']:
             t['est'] = repr(rng.choice(FLOATY))
+    if n >= 3 and rng.random() < 0.3:
+        # the plan is analysed, then restructured (tasks - summaries included - moved to another parent), then analysed again: the second
+        # answer must be the one for the plan as it is now
+        case['moves'] = [[rng.randrange(n), rng.choice([None] + list(range(n)))] for _ in range(rng.randrange(1, 4))]
     case['links'] = build(case)[2]
     return case
 
@@ -69,6 +73,18 @@ def build(case):
             acc.append([a, b])
         except RuntimeError:
             pass
+    if case.get('moves'):
+        try:
+            w.critical_path()
+        except Exception:  # noqa
+            pass
+        for o in objs:
+            (o.all_parents, o.all_children, o.all_predecessors, o.all_successors, o.parent, o.wbs)
+        for i, np in case['moves']:
+            try:
+                objs[i].parent = None if np is None else objs[np]
+            except RuntimeError:
+                pass
     return w, objs, acc
 
 
@@ -182,8 +198,11 @@ def case_variants(case):
             if t['parent'] is not None and t['parent'] > k:
                 t['parent'] -= 1
         nl = [[a - (a > k), b - (b > k)] for a, b in case['links'] if a != k and b != k]
+        nm = [[a - (a > k), None if b is None else b - (b > k)] for a, b in case.get('moves', []) if a != k and b != k]
         if nt and any(t['member'] for t in nt):
-            yield dict(case, tasks=nt, links=nl)
+            yield dict(case, tasks=nt, links=nl, moves=nm)
+    for i in range(len(case.get('moves', []))):
+        yield dict(case, moves=case['moves'][:i] + case['moves'][i + 1:])
 
 
 def shrink(prop, case, still_fails):
@@ -198,7 +217,7 @@ def mutate(prop, case, rng):
 
 
 def count(prop, tier):
-    return 2000 if tier == 'quick' else 50000
+    return 4000 if tier == 'quick' else 50000
 
 
 def projection(prop):
